@@ -606,22 +606,7 @@ func c13(r *core.Run) {
 			fmt.Sprintf("index maintenance treats a nil key and an empty key as equal (Equal guarded by non-nil tests %d of %d, both-nil test=%v): a value whose key becomes (or stops being) the empty key is not (un)indexed, so queries miss it or keep returning a deleted id", g, c, bn))
 	}
 	// Q1
-	fns := p.FuncsOfPkg(rel)
-	for _, c := range callsTo(fns, ui) {
-		cl := c.Parent()
-		good := cl.Parent() == hc && !core.IsGo(c)
-		if good {
-			good = false
-			for _, hcCall := range core.Calls(hc) {
-				if cal := hcCall.Common().StaticCallee(); cal != nil && strings.HasSuffix(cal.String(), "taskqueue.TaskQueue).Do") && !core.IsGo(hcCall) {
-					if mc, ok := hcCall.Common().Args[1].(*ssa.MakeClosure); ok && mc.Fn == cl {
-						good = true
-					}
-				}
-			}
-		}
-		r.Check(good, "Q1", core.FuncName(cl), "updateIndex-only-inside-queued-task", p.InstrPos(c), "index maintenance runs inside the task handed to the FIFO queue", "index maintenance runs outside the task queue (Flush would not wait for it / updates could reorder)")
-	}
+	queuedTaskRule(r, "Q1", ui, "index maintenance runs inside the task handed to the FIFO queue", "index maintenance runs outside the task queue (Flush would not wait for it / updates could reorder)")
 	ctor := p.Func(rel + ".NewQueryStore")
 	regOK := false
 	if ctor != nil {
@@ -829,6 +814,7 @@ func c14(r *core.Run) {
 
 	r.Rule("N1", "notify after commit, only on change: the query-change fan-out is dominated by the index transaction's err==nil edge, the empty-error-message edge and the updated flag; the flag is set true only where a key changed", 2)
 	r.Rule("N2", "unchanged-key predicate: bytes.Equal on index keys is evaluated only when both keys are known non-nil, a both-nil test exists, and index maintenance and affectsQuery use the same predicate shape; affectsQuery returns wasMatch||isMatch", 4)
+	r.Rule("O1", "mutation order per id: index maintenance - which applies one id's key deltas and runs the query-change callbacks - is executed only as a task handed to the blocking FIFO TaskQueue.Do by the store's change handler (no direct call, TryDo fallback or goroutine that could let a later delta overtake an earlier one)", 1)
 	r.Rule("N3", "query handler: a reset flag yields a reset event (resources) or a fresh result reply (query requests) and no per-event dispatch; both event dispatchers handle the same event names; errors are returned / replied", 3)
 
 	ui := methodNamed(p, rel, "QueryStore", "updateIndex")
@@ -837,6 +823,7 @@ func c14(r *core.Run) {
 		r.Unres("N1", "updateIndex/affectsQuery", "missing")
 		return
 	}
+	queuedTaskRule(r, "O1", ui, "deltas and notifications of one id are applied in mutation order by the single FIFO worker", "index maintenance / query-change notification can run outside the FIFO task queue: a later mutation's delta and callbacks can overtake an earlier one of the same id (subscribers end with a stale result, the index keeps or loses entries)")
 	// N1
 	var upd ssa.CallInstruction
 	for _, c := range core.Calls(ui) {
@@ -1416,6 +1403,96 @@ func derivesFromField(v ssa.Value, tname, fname string) bool {
 	for _, rf := range *al.Referrers() {
 		if st, ok := rf.(*ssa.Store); ok && st.Addr == ssa.Value(al) && isF(st.Val) {
 			return true
+		}
+	}
+	return false
+}
+
+// queuedTaskRule: every call of the index maintenance function ui is made
+// from a func literal that is handed (only) to TaskQueue.Do, the blocking
+// FIFO submission; a direct call, TryDo-with-fallback or go statement lets
+// one id's deltas overtake each other.
+func queuedTaskRule(r *core.Run, rule string, ui *ssa.Function, okText, badText string) {
+	p := r.P
+	fns := p.FuncsOfPkg("store/badgerstore")
+	for _, c := range callsTo(fns, ui) {
+		cl := c.Parent()
+		good := cl.Parent() != nil && !core.IsGo(c)
+		if good {
+			// every use of the closure value is as the task argument of TaskQueue.Do
+			nDo, nOther := 0, 0
+			for _, in := range instrsOf(cl.Parent()) {
+				mc, ok := in.(*ssa.MakeClosure)
+				if !ok || mc.Fn != ssa.Value(cl) {
+					continue
+				}
+				uses := closureUses(mc)
+				for _, u := range uses {
+					if call, ok := u.(ssa.CallInstruction); ok {
+						if cal := call.Common().StaticCallee(); cal != nil && strings.HasSuffix(cal.String(), "taskqueue.TaskQueue).Do") && !core.IsGo(call) && len(call.Common().Args) > 1 && closureValueIs(call.Common().Args[1], mc) {
+							nDo++
+							continue
+						}
+					}
+					nOther++
+				}
+			}
+			good = nDo >= 1 && nOther == 0
+		}
+		r.Check(good, rule, core.FuncName(cl), "updateIndex-only-inside-queued-task", p.InstrPos(c), okText, badText)
+	}
+}
+
+func instrsOf(fn *ssa.Function) []ssa.Instruction {
+	var out []ssa.Instruction
+	for _, b := range fn.Blocks {
+		out = append(out, b.Instrs...)
+	}
+	return out
+}
+
+// closureUses lists the instructions that use a closure value, looking
+// through the local variable cell it may be stored in.
+func closureUses(mc *ssa.MakeClosure) []ssa.Instruction {
+	var out []ssa.Instruction
+	if mc.Referrers() == nil {
+		return out
+	}
+	for _, rf := range *mc.Referrers() {
+		switch x := rf.(type) {
+		case *ssa.DebugRef:
+		case *ssa.Store:
+			if al, ok := x.Addr.(*ssa.Alloc); ok && x.Val == ssa.Value(mc) && al.Referrers() != nil {
+				for _, r2 := range *al.Referrers() {
+					if u, ok := r2.(*ssa.UnOp); ok && u.Referrers() != nil {
+						for _, r3 := range *u.Referrers() {
+							if _, isDbg := r3.(*ssa.DebugRef); !isDbg {
+								out = append(out, r3)
+							}
+						}
+					}
+				}
+				continue
+			}
+			out = append(out, rf)
+		default:
+			out = append(out, rf)
+		}
+	}
+	return out
+}
+
+func closureValueIs(v ssa.Value, mc *ssa.MakeClosure) bool {
+	if v == ssa.Value(mc) {
+		return true
+	}
+	if u, ok := v.(*ssa.UnOp); ok {
+		if al, ok := u.X.(*ssa.Alloc); ok && al.Referrers() != nil {
+			for _, rf := range *al.Referrers() {
+				if st, ok := rf.(*ssa.Store); ok && st.Val == ssa.Value(mc) {
+					return true
+				}
+			}
 		}
 	}
 	return false
